@@ -100,7 +100,13 @@ func (mod *Module) findIdentityBase(baseStr string) (*resolvedIdentity, []error)
 	case "", rootPrefix:
 		// This is a local identity which is defined within the current
 		// module
-		keyName := fmt.Sprintf("%s:%s", module(mod).Name, baseName)
+		m := module(mod)
+		if m == nil {
+			// mod is a submodule whose module has not been loaded.
+			errs = append(errs, fmt.Errorf("%s: can't resolve the local base %s: the module %s belongs to is not loaded", source, baseStr, mod.Name))
+			break
+		}
+		keyName := fmt.Sprintf("%s:%s", m.Name, baseName)
 		base, ok = typeDict.identities.dict[keyName]
 		if !ok {
 			errs = append(errs, fmt.Errorf("%s: can't resolve the local base %s as %s", source, baseStr, keyName))
@@ -114,9 +120,11 @@ func (mod *Module) findIdentityBase(baseStr string) (*resolvedIdentity, []error)
 			break
 		}
 		// The identity we are looking for is modulename:basename.
-		if id, ok := typeDict.identities.dict[fmt.Sprintf("%s:%s", module(extmod).Name, baseName)]; ok {
-			base = id
-			break
+		if m := module(extmod); m != nil {
+			if id, ok := typeDict.identities.dict[fmt.Sprintf("%s:%s", m.Name, baseName)]; ok {
+				base = id
+				break
+			}
 		}
 
 		// Error if we did not find the identity that had the name specified in
